@@ -538,13 +538,29 @@ func c12(r *vc.Run) int {
 		res := runChild(bin, "c12", sc, filepath.Join(r.Scratch, fmt.Sprintf("c12-%d", i)), 15*time.Minute)
 		absorb(r, m, res, label, sc, true)
 	})
+	// bulk runs over the token-count axis (see c12bulk.go)
+	var bulk []c12BulkScenario
+	for i, t := range []int{1, 3, 64, 1000, 9000, 20000} {
+		variants := 1
+		if r.Thorough() {
+			variants = 4
+		}
+		for v := 0; v < variants; v++ {
+			seeds := 2*t + 50
+			bulk = append(bulk, c12BulkScenario{Seed: r.Seed, Index: len(bulk), Tokens: t, Seeds: seeds, Producers: 1 + (i+v)%3, Consumers: []int{1, 2, 4, 1}[v], OutBuf: []int{0, 1, t, 0}[(i+v)%4], HeadStart: []int{300, 0, 50, 1000}[v]})
+		}
+	}
+	parallel(len(bulk), 6, func(i int) {
+		res := runChild(os.Getenv("VZ_BIN"), "c12-bulk", bulk[i], filepath.Join(r.Scratch, fmt.Sprintf("c12b-%d", i)), 5*time.Minute)
+		absorb(r, m, res, fmt.Sprintf("bulk%d[tokens=%d]", i, bulk[i].Tokens), bulk[i], true)
+	})
 	for s, n := range m.Races {
 		r.Note("race report x%d: %s", n, s)
 	}
 	cov := map[string]any{
 		"evaluations":         m.Evaluations,
 		"distinct_nontrivial": len(m.Distinct),
-		"rule":                "one evaluation = one concurrent history (1-3 producers, 1-3 workers, consumer, controller; cap in {1,2,3,4,8}; seeded hook-point perturbation) on the real reactor, checked with porcupine + quiescent invariants; distinct = distinct interleaving signatures (order of operation kinds, results and call/return spans by the global stamp)",
+		"rule":                "bulk runs: one reactor with 1..20000 tokens, producers inserting 2x that many seeds while the consumers are away, consumers feeding every seed back once (synchronously) and finishing it: must complete, exact delivery and token counts; one evaluation = one concurrent history (1-3 producers, 1-3 workers, consumer, controller; cap in {1,2,3,4,8}; seeded hook-point perturbation) on the real reactor, checked with porcupine + quiescent invariants; distinct = distinct interleaving signatures (order of operation kinds, results and call/return spans by the global stamp)",
 		"samples":             m.Samples,
 		"events":              m.Events,
 		"children":            m.Children,
